@@ -1664,6 +1664,14 @@ class Ctx:
     def st_Pass(self, s):
         pass
 
+    def st_ImportFrom(self, s):
+        # function-level ``from x import f``: binds nothing in the symbolic environment -- a call to ``f`` is resolved
+        # by its name like any module-level function (contract hook / registered contract), an unmodelled use of the
+        # name still ends in Unsupported("unknown name")  (was: unsupported statement)
+        pass
+
+    st_Import = st_ImportFrom
+
     def st_Expr(self, s):
         if isinstance(s.value, ast.Constant):
             return
